@@ -708,6 +708,12 @@ func (m *monC16) Final() {
 		if l == nil {
 			continue
 		}
+		if l.C != nil && l.C.Halted {
+			// the block in which a consensus engine would reject the validator updates is the chain's last one; the monitors do not
+			// see its transactions (refunds of timed-out transfers among them), so the equation is not decidable for this consumer
+			w.Event("C16", "cross-chain-conservation-not-decidable-for-a-halted-consumer")
+			continue
+		}
 		inflight := map[string]math.Int{}
 		w.Infof("C16 final: consumer=%s toProv=%d timeouts=%d acksToCons=%d", id, len(l.ToProv), len(l.Timeouts), len(l.AcksToCons))
 		for _, q := range [][]*InFlight{l.ToProv, l.Timeouts} {
